@@ -109,8 +109,14 @@ class Ctx(object):
 
     def path(self, suffix=''):
         self._fileno += 1
-        return os.path.join(self.tmp, 'f%d_%d%s' % (self.shard, self._fileno,
-                                                    suffix))
+        odd = ''
+        if self._fileno % 7 == 3:
+            # file names are not part of the input either: a blank, a dot and
+            # a non-ASCII letter in some of them
+            odd = ' v.2 \u00e4'
+            self.stratum('file name with blank, dot and non-ASCII letter')
+        return os.path.join(self.tmp, 'f%d_%d%s%s' % (self.shard, self._fileno,
+                                                      odd, suffix))
 
     def result(self):
         from . import contracts
@@ -155,6 +161,9 @@ def worker_main(argv):
         if gen.LOOKALIKE[0]:
             ctx.stratum('token that resembles punctuation but is none',
                         gen.LOOKALIKE[0])
+        from . import common
+        for k_, v_ in common.ENVIRONMENTS.items():
+            ctx.stratum('command line run with ' + k_, v_)
     except Exception:
         import traceback
         status = 'crash'
